@@ -47,9 +47,16 @@ func (ex *Exec) step(fr *frame, st *State, ins ssa.Instruction) []*State {
 			ex.raise(fr, st, runtimePanic(ex.pos(x), "nil pointer dereference"))
 			return nil
 		}
-		st.H.Store(p, ex.get(fr, st, x.Val))
-		if g, ok := x.Addr.(*ssa.Global); ok && ex.RecordGlobals {
-			ex.Events = append(ex.Events, Event{Kind: "write", Obj: "global:" + g.Name(), Site: ex.pos(x)})
+		sv := ex.get(fr, st, x.Val)
+		st.H.Store(p, sv)
+		if g, ok := x.Addr.(*ssa.Global); ok {
+			if ex.RecordGlobals {
+				ex.Events = append(ex.Events, Event{Kind: "write", Obj: "global:" + g.Name(), Site: ex.pos(x)})
+			}
+			if pv, isPtr := sv.(PtrV); isPtr && pv.Obj != 0 {
+				// an object stored into a package variable is shared from then on (e.g. a lazily created generator)
+				ex.Events = append(ex.Events, Event{Kind: "publish", Obj: fmt.Sprint(pv.Obj), Site: ex.pos(x)})
+			}
 		}
 	case *ssa.UnOp:
 		return ex.unop(fr, st, x)
